@@ -180,7 +180,8 @@ NatFmtObs(r) ==
         ELSE
           LET ds == Digits(NValue(a), r.radix)
               pre == Prefix(r.radix)
-              cls == (IF FmtPads(ds, pre, sp) THEN (IF sp.zero THEN "zeropad" ELSE "pad") ELSE "nopad")
+              cls == (IF a.m = <<>> THEN "zero." ELSE "")
+                     \o (IF FmtPads(ds, pre, sp) THEN (IF sp.zero THEN "zeropad" ELSE "pad") ELSE "nopad")
                      \o (IF sp.plus \/ (sp.alt /\ pre # <<>>) THEN "+prefix" ELSE "")
               name == "natural.fmt." \o RadixName(r.radix) \o ":" \o cls
           IN  IF Panicked(r) THEN << O("C12", name, FALSE) >>
